@@ -135,4 +135,71 @@ theorem stdout_complete_lines (o : Outcome) :
     · rw [h]; simp
     · rw [List.getLast?_append, h]; simp
 
+/-! ### `mix`: the base given as `-` is read once -/
+
+/-- A colour argument that is ordinary (not `-`, not `pick`) is read without touching stdin. -/
+theorem colorFromArg_ordinary (t : String) (stdin : List StdinLine) (ho : Ordinary t) :
+    ∃ r, colorFromArg t stdin = (r, stdin) ∧ ∀ stdin', colorFromArg t stdin' = (r, stdin') := by
+  cases hp : P.parseColor t.toList with
+  | some c => exact ⟨.ok c, colorFromArg_ok t c stdin ho hp, fun s => colorFromArg_ok t c s ho hp⟩
+  | none => exact ⟨.error (.colorParse t), colorFromArg_bad t stdin ho hp, fun s => colorFromArg_bad t s ho hp⟩
+
+/-- Once the base colour has been read, the base argument is not looked at again. -/
+theorem loopMixArgs_cached (b1 b2 fr sp : String) (b : Col) :
+    ∀ (cs : List String) (stdin : List StdinLine),
+      loopMixArgs [b1, fr, sp] (some b) cs stdin = loopMixArgs [b2, fr, sp] (some b) cs stdin := by
+  intro cs
+  induction cs with
+  | nil => intro stdin; rfl
+  | cons a rest ih =>
+    intro stdin
+    unfold loopMixArgs
+    cases hcf : colorFromArg a stdin with
+    | mk r stdin' =>
+      cases r with
+      | error e => rfl
+      | ok c =>
+        simp only [mixBody]
+        cases hn : numberArg fr with
+        | error e => rfl
+        | ok f => simp only [ih]
+
+/-- **The base colour of `mix` given as `-` is one stdin line, read once**: with ordinary colour
+arguments, `mix - c₁ … cₙ` on a stdin whose first line is `l` behaves exactly like
+`mix <l trimmed> c₁ … cₙ` on the rest of stdin — same lines, same error, for any number of colours
+(this is what 940cd78 repaired: the base used to be read again for every colour). -/
+theorem mix_dash_base_read_once (fr sp l : String) (cs : List String) (rest : List StdinLine)
+    (hcs : ∀ a ∈ cs, Ordinary a) (hl : Ordinary (String.ofList (P.trim l.toList))) :
+    loopMixArgs ["-", fr, sp] none cs (.text l :: rest) =
+      loopMixArgs [String.ofList (P.trim l.toList), fr, sp] none cs rest := by
+  cases cs with
+  | nil => rfl
+  | cons a as =>
+    obtain ⟨r, _, hr⟩ := colorFromArg_ordinary a rest (hcs a (List.mem_cons_self ..))
+    unfold loopMixArgs
+    rw [hr (.text l :: rest), hr rest]
+    cases r with
+    | error e => rfl
+    | ok c =>
+      simp only [mixBody]
+      have hdash : colorFromArg "-" (.text l :: rest) =
+          (match P.parseColor (String.ofList (P.trim l.toList)).toList with
+            | some c => (.ok c, rest)
+            | none => (.error (.colorParse (String.ofList (P.trim l.toList))), rest)) := by
+        unfold colorFromArg colorFromStdin
+        simp
+        cases P.parseColor (P.trim l.toList) <;> rfl
+      rw [hdash]
+      cases hp : P.parseColor (String.ofList (P.trim l.toList)).toList with
+      | none =>
+        rw [colorFromArg_bad _ rest hl hp]
+      | some b =>
+        rw [colorFromArg_ok _ b rest hl hp]
+        simp only []
+        cases hn : numberArg fr with
+        | error e => rfl
+        | ok f =>
+          simp only []
+          rw [loopMixArgs_cached "-" (String.ofList (P.trim l.toList)) fr sp b as rest]
+
 end Pastel.C19
